@@ -521,3 +521,48 @@ Fixpoint nofld (d : name) (e : expr) {struct e} : bool :=
   | EEq a b => nofld d a && nofld d b
   | ETrace m y => nofld d m && nofld d y
   end.
+
+(* ------------------------------------------------------------------ one-hole contexts
+   (used only to STATE the general laziness-monotonicity goal in Props/C04.v) *)
+
+Inductive ctx : Type :=
+| CHole
+| CLocalBind (bs1 : list (name * expr)) (x : name) (c : ctx) (bs2 : list (name * expr)) (body : expr)
+| CLocalBody (bs : list (name * expr)) (c : ctx)
+| CArrItem (es1 : list expr) (c : ctx) (es2 : list expr)
+| CObjField (fs1 : list field) (f : name) (h : bool) (c : ctx) (fs2 : list field)
+| CCallArg (fn : expr) (as1 : list expr) (c : ctx) (as2 : list expr)
+| CCallFun (c : ctx) (args : list expr)
+| CFuncBody (ps : list param) (c : ctx)
+| CIndexL (c : ctx) (i : expr) | CIndexR (a : expr) (c : ctx)
+| CFieldOf (c : ctx) (f : name)
+| CIfC (c : ctx) (t e : expr) | CIfT (b : expr) (c : ctx) (e : expr) | CIfE (b t : expr) (c : ctx)
+| CAddL (c : ctx) (b : expr) | CAddR (a : expr) (c : ctx)
+| CEqL (c : ctx) (b : expr) | CEqR (a : expr) (c : ctx)
+| CErr (c : ctx) | CTraceM (c : ctx) (e : expr) | CTraceE (m : expr) (c : ctx).
+
+Fixpoint plug (c : ctx) (e : expr) : expr :=
+  match c with
+  | CHole => e
+  | CLocalBind bs1 x c' bs2 body => ELocal (bs1 ++ (x, plug c' e) :: bs2) body
+  | CLocalBody bs c' => ELocal bs (plug c' e)
+  | CArrItem es1 c' es2 => EArr (es1 ++ plug c' e :: es2)
+  | CObjField fs1 f h c' fs2 => EObj (fs1 ++ (f, (h, plug c' e)) :: fs2)
+  | CCallArg fn as1 c' as2 => ECall fn (as1 ++ plug c' e :: as2)
+  | CCallFun c' args => ECall (plug c' e) args
+  | CFuncBody ps c' => EFunc ps (plug c' e)
+  | CIndexL c' i => EIndex (plug c' e) i
+  | CIndexR a c' => EIndex a (plug c' e)
+  | CFieldOf c' f => EField (plug c' e) f
+  | CIfC c' t f => EIf (plug c' e) t f
+  | CIfT b c' f => EIf b (plug c' e) f
+  | CIfE b t c' => EIf b t (plug c' e)
+  | CAddL c' b => EAdd (plug c' e) b
+  | CAddR a c' => EAdd a (plug c' e)
+  | CEqL c' b => EEq (plug c' e) b
+  | CEqR a c' => EEq a (plug c' e)
+  | CErr c' => EError (plug c' e)
+  | CTraceM c' x => ETrace (plug c' e) x
+  | CTraceE m c' => ETrace m (plug c' e)
+  end.
+
